@@ -30,6 +30,24 @@ fn main() {
             let code = engine::run_worker(p.as_ref(), tier, shard, nshards, skip, Path::new(&args[7]), Path::new(&args[8]));
             std::process::exit(code);
         }
+        "--emit-corpus" => {
+            // --emit-corpus TARGET DIR N
+            let n: usize = args.get(4).and_then(|s| s.parse().ok()).unwrap_or(200);
+            match vp::fuzzing::emit_corpus(&args[2], Path::new(&args[3]), n) {
+                Ok(k) => println!("{} seed inputs written", k),
+                Err(e) => {
+                    eprintln!("{}", e);
+                    std::process::exit(2);
+                }
+            }
+        }
+        "--artifact-to-case" => {
+            // --artifact-to-case TARGET ARTIFACT OUT
+            if let Err(e) = vp::fuzzing::artifact_to_case(&args[2], Path::new(&args[3]), Path::new(&args[4])) {
+                eprintln!("{}", e);
+                std::process::exit(2);
+            }
+        }
         "--replay-child" => {
             let p = vp::props::by_id(&args[2]).expect("property");
             std::process::exit(engine::replay_child(p.as_ref(), Path::new(&args[3])));
